@@ -122,7 +122,9 @@ class PropertyRun:
                 self.trusted.add(f"contract of {q} used at call sites (its body is verified under {','.join(c.props) or 'no property'})")
         for f in self.functions:
             if f.get("assumed_preconditions_of"):
-                self.trusted.add(f"{f['function']}: preconditions of {', '.join(f['assumed_preconditions_of'])} are assumed at their call sites")
+                ap = f["assumed_preconditions_of"]
+                txt = ", ".join(ap) if isinstance(ap, list) else "; ".join(f"{k}: {', '.join(v)}" for k, v in ap.items())
+                self.trusted.add(f"{f['function']}: preconditions assumed at call sites -- {txt}")
             if f.get("scope_note"):
                 self.trusted.add(f"{f['function']}: {f['scope_note']}")
         for b, proc in bfuts:
